@@ -33,6 +33,7 @@ RULE = ('pool of 23 files: uamiv, lateral boundary, bpch, ICARTT, netCDF, '
         'non-empty; distinct = digest of (history, probe).')
 RULE += (" Events also include re-registration, opens with reader keywords (endian='little' among them) and opens by relative name from a private working directory whose content changes between events (32 event tokens in all).")
 RULE += (' Two more bpch pool files in directories of their own (other tracers and times; a tracer without a line in its tracerinfo.dat), an event naming the block-walking reader for one of them, and three reader-naming probes after every history (25 files, 35 event tokens).')
+RULE += (' Two netCDF-4 (HDF5) files and a truncated copy of one that the netCDF library refuses; the gridded, boundary and one-3D pool files share one time axis and differ in their number of variables (28 files, 38 event tokens).')
 ASSUMPTIONS = [
     'every (history, probe) pair runs in a fork()ed child of a helper '
     'process that has imported the library and never opened a file, so the '
@@ -82,6 +83,10 @@ POOL = [
     # tables: other tracers and times (sub2), and a tracer that has no line
     # in the tracerinfo.dat beside it (sub3)
     ('sub2/c2.bpch', 'bpch2nd', 'bpch'), ('sub3/c3.bpch', 'bpch3rd', 'bpch'),
+    # netCDF-4 (HDF5 container) files, and a truncated copy of one (HDF5
+    # signature, refused by the netCDF library)
+    ('e4.nc', 'nc4', 'netcdf'), ('e4_noext', 'nc4', 'netcdf'),
+    ('e4cut.nc', 'nc4cut', None),
 ]
 NP = len(POOL)
 # probes that NAME a reader: made after every history in addition to the
@@ -149,14 +154,17 @@ def make_pool():
     rng = np.random.default_rng(20260926)
     img = {}
     s = refcamx.gen_spec(rng, 'uamiv')
-    s.update(nx=4, ny=3, nz=2, nt=2, sdate=2005185, shour=3,
+    # (the gridded, boundary and one-3D files share their time axis and
+    # differ in the number of variables)
+    s.update(nx=4, ny=3, nz=2, nt=2, sdate=2005185, shour=3, dhour=1,
              name='AVERAGE', iproj=2)
     img['uamiv'] = refcamx.encode(s)
     s = refcamx.gen_spec(rng, 'lateral_boundary')
-    s.update(nx=4, ny=3, nz=2, nt=2, sdate=2005185, shour=3, iproj=2)
+    s.update(nx=4, ny=3, nz=2, nt=2, sdate=2005185, shour=3, dhour=1,
+             iproj=2)
     img['lateral_boundary'] = refcamx.encode(s)
     s = refcamx.gen_spec(rng, 'one3d')
-    s.update(nx=4, ny=3, nz=2, nt=2, sdate=2005185, shour=3)
+    s.update(nx=4, ny=3, nz=2, nt=2, sdate=2005185, shour=3, dhour=1)
     img['one3d'] = refcamx.encode(s)
     bs = refbpch.gen_spec(rng)
     img['bpch'] = refbpch.encode(bs)
@@ -208,6 +216,20 @@ def make_pool():
                 v[0:2, :] = np.arange(6).reshape(2, 3) + 0.5
                 ds.title = 'pool'
                 ds.close()
+        elif kind == 'nc4':
+            if not os.path.exists(p):
+                ds = netCDF4.Dataset(p, 'w', format='NETCDF4')
+                ds.createDimension('t', None)
+                ds.createDimension('x', 3)
+                v = ds.createVariable('v', 'f4', ('t', 'x'))
+                v[0:3, :] = np.arange(9).reshape(3, 3) + 0.25
+                ds.title = 'pool (netCDF-4)'
+                ds.close()
+        elif kind == 'nc4cut':
+            if not os.path.exists(p):
+                whole = open(os.path.join(d, 'e4.nc'), 'rb').read()
+                with open(p, 'wb') as fh:
+                    fh.write(whole[:len(whole) // 3])
         else:
             with open(p, 'wb') as fh:
                 fh.write(img[kind])
